@@ -86,6 +86,10 @@ def handle_comp(c):
         g = [Fraction(float(v)) for v in G[r]]
         con = [s * (x - fup) for x in g]
         ref, w, M = ref_lse(con, frho)
+        if not np.isfinite(out[r]) or not np.all(np.isfinite(J[r])):
+            msgs.append('row %d: non-finite KS %r / partials %r' % (r, out[r], J[r].tolist()))
+            sig = sig or 'nonfinite'
+            continue
         o = dec(Fraction(float(out[r])))
         scale = max(1, abs(M), abs(fup), max(abs(x) for x in g))
         eps = Decimal(10) ** -12 * dec(scale)
@@ -120,9 +124,12 @@ def handle_comp(c):
         if not close(o, want_o, Decimal(10) ** -9 * dec(max(1, abs(M)))):
             msgs.append('row %d: KS=%s, exact value %s' % (r, o, want_o))
             sig = sig or 'value'
-    res = {'out': [q(float(v)) for v in out],
-           'J': [[q(float(v)) for v in row] for row in J],
-           'rows': rows, 'cols': cols}
+    if sig == 'nonfinite':
+        res = '__none__'
+    else:
+        res = {'out': [q(float(v)) for v in out],
+               'J': [[q(float(v)) for v in row] for row in J],
+               'rows': rows, 'cols': cols}
     return {'res': res, 'ok': not msgs, 'msg': '; '.join(msgs[:4]), 'sig': sig,
             'kind': 'comp:%s%s:w%d' % ('min' if mn else 'max', '+lower' if lw else '', width)}
 
